@@ -92,7 +92,7 @@ fn gen(seed: u64, tier: Tier) -> Plan {
     let hostile = if rng.chance(1, 4) {
         Some((
             rng.range(1, n as u64 - 1) as usize,
-            rng.pick(&["wrap-two-halves", "wrap-max-plus", "wrap-three"]).to_string(),
+            rng.pick(&["wrap-two-halves", "wrap-max-plus", "wrap-three", "gt-pays-out", "nft-overspend"]).to_string(),
             rng.pick(&["pool", "block"]).to_string(),
         ))
     } else {
@@ -199,6 +199,31 @@ fn hostile_tx(c: &mut Chain, kind: &str) -> Option<Transaction> {
     let inp = mine.first()?.clone();
     let tag = c.tag();
     let ts = c.tip_rec().ts + tag;
+    match kind {
+        "gt-pays-out" => {
+            // a golden ticket with a valid solution whose transaction also carries a value output
+            let tip = c.tip_rec().hash;
+            let d = c.node.bc.get_block(&tip).map(|b| b.difficulty).unwrap_or(0);
+            if d > 12 {
+                return None;
+            }
+            let mut g = gt_tx(mine_gt(tip, d, &vk, tag), &vk);
+            let mut o = saito_core::core::consensus::slip::Slip::default();
+            o.public_key = vk.pk;
+            o.amount = 5_000_000_000;
+            g.add_to_slip(o);
+            g.sign(&vk.sk);
+            return Some(g);
+        }
+        "nft-overspend" => {
+            // an NFT creation whose ordinary outputs exceed the consumed input
+            if inp.stype != saito_core::core::consensus::slip::SlipType::Normal {
+                return None;
+            }
+            return Some(make_nft_tx(&vk, &inp, &vk.pk, inp.amount, inp.amount / 2 + 1, ts, &tag.to_le_bytes()));
+        }
+        _ => {}
+    }
     let outs: Vec<(saito_core::core::defs::SaitoPublicKey, u64)> = match kind {
         "wrap-two-halves" => vec![(vk.pk, 1u64 << 63), (vk.pk, 1u64 << 63)],
         "wrap-max-plus" => vec![(vk.pk, u64::MAX), (vk.pk, inp.amount / 2 + 1)],
@@ -214,7 +239,7 @@ impl Scenario for C02 {
     fn meta(&self) -> Meta {
         Meta {
             level: "exploration",
-            rule: "run = producer node (builds every block on its own tip with the real Block::create and validates it itself) over genesis period 3..10 for up to 30/120 blocks: 1-4 payments per block with fee classes {0, small, occasionally large}, 0-2 hop routing paths, an NFT minted (Bound-Normal-Bound group, possibly fee-paying) in about one block of five, four golden-ticket patterns (alternating, 2-of-3, streaks and gaps, random), issuance scales {1e3, 1e6, 4e13 per slip}; rebroadcasts start when the window wraps. One third of the runs add a competing fork built by a second producer that replayed the shared prefix, delivered to an observer node after the main chain (reorganisation across payouts and rebroadcasts). One quarter add a hostile transaction whose output sum wraps 2^64, through the pool or inside a block. Oracle after every accepted block, on every node, in u128: in-window non-Bound spendable value + treasury + graveyard + previous_block_unpaid + total_fees(tip) == issued; the node's in-window value equals the reference replay; no accepted user transaction has outputs > inputs. distinct_nontrivial = distinct history digests with >= 1 golden-ticket payout, >= 1 fee-paying transaction and >= 1 rebroadcast block.",
+            rule: "run = producer node (builds every block on its own tip with the real Block::create and validates it itself) over genesis period 3..10 for up to 30/120 blocks: 1-4 payments per block with fee classes {0, small, occasionally large}, 0-2 hop routing paths, an NFT minted (Bound-Normal-Bound group, possibly fee-paying) in about one block of five, four golden-ticket patterns (alternating, 2-of-3, streaks and gaps, random), issuance scales {1e3, 1e6, 4e13 per slip}; rebroadcasts start when the window wraps. One third of the runs add a competing fork built by a second producer that replayed the shared prefix, delivered to an observer node after the main chain (reorganisation across payouts and rebroadcasts). One quarter add a hostile transaction that pays out more than it consumes (output sum wrapping 2^64; a golden ticket with a valid solution and a value output; an NFT creation whose ordinary outputs exceed its input), through the pool or inside a block. Oracle after every accepted block, on every node, in u128: in-window non-Bound spendable value + treasury + graveyard + previous_block_unpaid + total_fees(tip) == issued; the node's in-window value equals the reference replay; no accepted user transaction has outputs > inputs. distinct_nontrivial = distinct history digests with >= 1 golden-ticket payout, >= 1 fee-paying transaction and >= 1 rebroadcast block.",
             real: &["Block::create/generate_consensus_values/validate", "Transaction::generate_total_fees/validate", "Blockchain::add_block/check_total_supply", "Mempool::add_transaction_if_validates", "Storage (block files read back for rebroadcast)"],
             stubs: &["SimIo", "SimConfig", "vendored ahash"],
             assumptions: &["staking off in this family", "timestamps >= 2 heartbeats apart so that the routing-work requirement is zero"],
@@ -275,7 +300,7 @@ impl Scenario for C02 {
                         r.fault("wrapping_amount_tx", 1);
                         if path == "pool" {
                             if c.node.add_tx(h.clone()) {
-                                r.violate(format!("C02|accepted|{}|pool", kind), format!("a transaction whose outputs sum to more than 2^64 ({}) entered the pool", kind));
+                                r.violate(format!("C02|accepted|{}|pool", kind), format!("a transaction that pays out more than it consumes ({}) entered the pool", kind));
                             }
                             c.node.mempool.transactions.clear();
                             c.node.mempool.utxo_map.clear();
@@ -293,7 +318,9 @@ impl Scenario for C02 {
                 // build on the producer's storage without adding; offer to the observer only
                 let parent = c.tip_rec().hash;
                 let ts = c.tip_rec().ts + op.dt;
-                match crate::util::guarded(|| build_block(&c.node, &c.keys, BlockSpec { parent, ts, txs: txs.clone(), gt: op.gt, creator: 0 })) {
+                // (a hostile golden ticket is the block's ticket)
+                let block_gt = op.gt && plan.hostile.as_ref().map_or(true, |h| h.1 != "gt-pays-out");
+                match crate::util::guarded(|| build_block(&c.node, &c.keys, BlockSpec { parent, ts, txs: txs.clone(), gt: block_gt, creator: 0 })) {
                     Ok(Ok(b)) => {
                         let rec = rec_from_block(&b, false, "hostile-wrap");
                         let res = crate::util::guarded(|| observer.add_block_bytes(&rec.bytes));
@@ -301,7 +328,7 @@ impl Scenario for C02 {
                             Ok(Some(x)) if outcome_of(&x) == (AddOutcome::Added { longest: true }) => {
                                 r.violate(
                                     format!("C02|accepted|{}|block", plan.hostile.as_ref().unwrap().1),
-                                    "a block carrying a transaction whose outputs sum to more than 2^64 was accepted".to_string(),
+                                    "a block carrying a transaction that pays out more than it consumes (64-bit wrap, value-bearing golden ticket, or NFT overspend) was accepted".to_string(),
                                 );
                                 check_block_txs(&mut r, &rec);
                             }
@@ -324,7 +351,11 @@ impl Scenario for C02 {
             }
             // like the real producer (can_bundle_block) do not bundle without enough golden tickets
             let tip_hash = c.tip_rec().hash;
-            let gt = op.gt || !c.node.bc.is_golden_ticket_count_valid(tip_hash, op.gt, false, false);
+            // (long ticket streaks drive the difficulty up by one per block; the harness's own miner pays
+            // 2^difficulty hashes, so optional tickets stop at difficulty 10)
+            let tip_difficulty = c.node.bc.get_block(&tip_hash).map(|b| b.difficulty).unwrap_or(0);
+            let want = op.gt && tip_difficulty < 10;
+            let gt = want || !c.node.bc.is_golden_ticket_count_valid(tip_hash, want, false, false);
             let ext = crate::util::guarded(|| c.extend(txs, gt, op.dt));
             let idx = match ext {
                 Ok(Ok(i)) => i,
@@ -381,7 +412,9 @@ impl Scenario for C02 {
                 for op in &plan.fork_ops {
                     let txs = block_txs(&mut f, &mut frng, op);
                     let tip_hash = f.tip_rec().hash;
-                    let gt = op.gt || !f.node.bc.is_golden_ticket_count_valid(tip_hash, op.gt, false, false);
+                    let fd = f.node.bc.get_block(&tip_hash).map(|b| b.difficulty).unwrap_or(0);
+                    let want = op.gt && fd < 10;
+                    let gt = want || !f.node.bc.is_golden_ticket_count_valid(tip_hash, want, false, false);
                     let ext = crate::util::guarded(|| f.extend(txs, gt, op.dt + 37));
                     let idx = match ext {
                         Ok(Ok(i)) => i,
